@@ -115,6 +115,7 @@ pub fn apply_caught(ex: &mut Exec, op: Op) -> Ret {
 
 /// Rebuilds a state by replaying its history on a fresh real cache.
 pub fn rebuild<'u>(u: &'u Universe, cfg: &Config, hist: &[Op]) -> Exec<'u> {
+    crate::contain::heartbeat();
     let mut ex = Exec::new(u, cfg);
     for &h in hist {
         let _ = apply_caught(&mut ex, h);
